@@ -63,6 +63,30 @@ class _Rename(ast.NodeTransformer):
         return node
 
 
+class _DictLit(ast.NodeTransformer):
+    """dict(a=1, b=2) -> {"a": 1, "b": 2}"""
+
+    def visit_Call(self, node):
+        self.generic_visit(node)
+        if isinstance(node.func, ast.Name) and node.func.id == "dict" and not node.args and node.keywords \
+                and all(k.arg for k in node.keywords):
+            return ast.copy_location(ast.Dict(keys=[ast.Constant(k.arg) for k in node.keywords],
+                                              values=[k.value for k in node.keywords]), node)
+        return node
+
+
+class _IfInvert(ast.NodeTransformer):
+    """if c: A else: B  ->  if not c: B else: A   (only plain if/else with non-empty else that is not an elif)"""
+
+    def visit_If(self, node):
+        self.generic_visit(node)
+        if node.orelse and not (len(node.orelse) == 1 and isinstance(node.orelse[0], ast.If)) and \
+                isinstance(node.test, ast.Name):
+            node.test = ast.UnaryOp(op=ast.Not(), operand=node.test)
+            node.body, node.orelse = node.orelse, node.body
+        return node
+
+
 def overlay(kind):
     ov = {}
     for path in sorted(glob.glob(os.path.join(REPO, "shroud", "*.py"))):
@@ -73,6 +97,11 @@ def overlay(kind):
         elif kind == "rename":
             tree = ast.parse(text)
             _Rename().visit(tree)
+            ov[rel] = ast.unparse(tree) + "\n"
+        elif kind in ("dictlit", "ifinvert"):
+            tree = ast.parse(text)
+            ({"dictlit": _DictLit, "ifinvert": _IfInvert}[kind])().visit(tree)
+            ast.fix_missing_locations(tree)
             ov[rel] = ast.unparse(tree) + "\n"
         elif kind == "shift":
             lines = text.split("\n")
@@ -96,7 +125,7 @@ def job(args):
 
 
 def main(argv):
-    kinds = [a for a in argv if a in ("unparse", "shift", "rename")] or ["unparse", "shift"]
+    kinds = [a for a in argv if a in ("unparse", "shift", "rename", "dictlit", "ifinvert")] or ["unparse", "shift", "rename"]
     props = [a.upper() for a in argv if a.upper() in ALL] or ALL
     with Pool(16) as pool:
         base = {p: set(map(tuple, g)) for p, g, e in pool.map(job, [(p, None) for p in props])}
